@@ -61,13 +61,14 @@ def run(chk, facts, tier):
                 r = fn.returns()
                 il = next((x for x in (ret_value(r[0]).walk() if len(r) == 1 and ret_value(r[0]) is not None else []) if (x.k == 'InitListExpr' or x.d.get('ctor') or x.k == 'CXXConstructExpr') and len(x.c) == 2), None)
                 first = strip_casts(il.c[0]) if il is not None else None
-                sub = strip_casts(first.c[0]) if first is not None and first.k == 'UnaryOperator' and first.o == '&' else None
-                if sub is None or sub.k != 'ArraySubscriptExpr':
+                ea = elem_addr(first) if first is not None else None
+                if ea is None or isinstance(ea[1], int):
                     probs.append('body(): start is not &pdu.buffer[ offset ]')
                     continue
-                o = lin(fn, sub.c[1])
+                sub = first
+                o = lin(fn, ea[1])
                 if o is None or (o.t and set(o.t) != {'header_size'}):
-                    probs.append('body(): offset %s is not a constant' % sub.c[1].text())
+                    probs.append('body(): offset %s is not a constant' % ea[1].text())
                 else:
                     offs.add(o.c + (hsv or 0) * o.t.get('header_size', 0))
             elif fn.name == 'data_channel_pdu_memory_size':
@@ -189,10 +190,11 @@ def run(chk, facts, tier):
                 probs.append('first alternative is not `end_ + b >= buffer + Size`')
             else:
                 b_r = plus_const(fn, d0[1], 'end_')
-            if not (d1 and d1[0] == '==' and strip_casts(d1[2]).n == 'wrap_mark' and strip_casts(d1[1]).k == 'ArraySubscriptExpr' and is_name(strip_casts(d1[1]).c[0], 'end_')):
+            el = as_elem(d1[1]) if d1 else None
+            if not (d1 and d1[0] == '==' and strip_casts(d1[2]).n == 'wrap_mark' and el is not None and is_name(el[0], 'end_')):
                 probs.append('second alternative is not `end_[ i ] == wrap_mark`')
-            elif b_r is not None and cval(strip_casts(d1[1]).c[1]) != b_r:
-                probs.append('the mark is read at end_[%s] but the storage test covers end_ + %s' % (cval(strip_casts(d1[1]).c[1]), b_r))
+            elif b_r is not None and cval(el[1]) != b_r:
+                probs.append('the mark is read at end_[%s] but the storage test covers end_ + %s' % (cval(el[1]), b_r))
             if a_w is not None and b_r is not None and a_w != b_r:
                 probs.append('writer and reader disagree: the writer marks a wrap when front_ + %d < end of storage, the reader assumes an unmarked wrap when end_ + %d >= end of storage; for the positions in between the reader '
                              'takes stale bytes for a PDU header (or skips a stored PDU)' % (a_w, b_r))
